@@ -123,7 +123,7 @@ def run_req(res, ctx, rng, base, idx):
         elif r < 0.8:
             i = rng.choice(VALID) + "+"
         else:
-            i = "LicenseRef-" + rng.choice(["custom", "x.y", "Acme-1"])
+            i = "LicenseRef-" + rng.choice(["custom", "x.y", "Acme-1", "Unknown-origin", "VendorUnknown"])
         ids.append(i)
     ids = list(dict.fromkeys(ids))
     stripped = list(dict.fromkeys(i[:-1] if i.endswith("+") else i for i in ids))
@@ -310,6 +310,13 @@ def run_all(case, ctx, res):
                                rng.randint(0, 3))
         for j, i in enumerate(extra_ids):
             (root / f"extra{j}.py").write_text(f"# SPDX-FileCopyrightText: 2020 E\n# SPDX-License-Identifier: {i if 'exception' not in i else 'MIT WITH ' + i}\n")
+        if case["k"] % 4 == 1:
+            # a repository whose ignore rules happen to match licence texts: what is in LICENSES/ counts, tracked or not
+            trees.git_init(root)
+            (root / ".gitignore").write_text("LICENSES/*.txt\n*.orig\n")
+            trees.git(root, "add", "-A", check=False)
+            trees.git(root, "commit", "-q", "-m", "init", check=False)
+            res.cell("all:git-ignoring-licence-texts")
         r0 = run_cli(["--no-multiprocessing", "--root", str(root), "lint", "--json"], cwd=str(root))
         try:
             missing = set(json.loads(r0.stdout)["non_compliant"]["missing_licenses"])
@@ -327,6 +334,8 @@ def run_all(case, ctx, res):
             return
         after = snapshot(root)
         for rel, what in snap_diff(before, after).items():
+            if rel.startswith(".git/") or rel == ".git":
+                continue
             if what != "added":
                 res.violation("existing-file-altered", f"download --all: {rel} {what}")
                 return
